@@ -125,12 +125,13 @@ META2 = {
         assumptions=["the last code of a sequence is terminal (the property's premise)"],
         level_text="bounded model checking through the public API over all code sequences of the stated length"),
     "C11": dict(
-        engine=E2,
+        engine=E2 + " + " + E3,
         explanation="s_step.c obligations from any RI state: never both machines in FLUSH_IO_WRITE (part of RI); at most one io->write attempt per call, only by a machine that is flushing, offering the byte "
                     "under its own cursor; cursor advances by one iff accepted; a flush is entered only from its wait state with the cursor on the first byte of a unit and left only at the NUL of the "
-                    "trailing newline; the other machine's buffer is not written meanwhile (C03 frames). Together these imply whole, non-interleaved units for every schedule and history.",
-        bounds={"quick": "109 step jobs", "thorough": "1516 step jobs"},
-        outside="no line-level run with events in flight (r_events.c exists but exhausts memory under CBMC, DESIGN.md 9.6); the argument from the lemmas to the stream property is on paper (DESIGN.md C11)",
+                    "trailing newline; the other machine's buffer is not written meanwhile (C03 frames). Together these imply whole, non-interleaved units for every schedule and history."
+                    " r_evq.c (black box, public API, events only): two triggers with concrete (command, read|test kind) at symbolic steps (first inside a 3-step window, second 0..4 steps later), one io->write refusal at a symbolic step, queue capacity 1, 2 or 3; monitors: the output parses into whole newline-framed units, each with exactly the producer's text (+B=207 / +C=), one per accepted event.",
+        bounds={"quick": "109 step jobs + 6 event-only runs (50 calls)", "thorough": "1516 step jobs + 162 event-only runs"},
+        outside="a command response and an event line in flight together are decided at step level only (r_events.c, the line-level scenario with both machines active, is kept unregistered: DESIGN.md 9.6); the argument from the lemmas to the stream property is on paper (DESIGN.md C11)",
         assumptions=[RI_NOTE, FAMILY],
         level_text="inductive step lemmas decided by the solver; the composition argument is manual"),
     "C12": dict(
@@ -143,11 +144,13 @@ META2 = {
         assumptions=[RI_NOTE, FAMILY, "io->read returns 0 or 1 and leaves *ch alone when it returns 0"],
         level_text="inductive stutter lemma plus bounded self-composition"),
     "C13": dict(
-        engine=E2,
+        engine=E2 + " + " + E3,
         explanation="s_api.c: from any ring state satisfying the ring clause, trigger appends iff fewer than CAPACITY entries wait, else BUFFER_FULL and nothing changes; buffer_full, event_buffered and "
-                    "get_processed_command agree with the abstract queue. s_step.c: only the idle event FSM pops, exactly the oldest entry, which becomes the event in progress; no other call changes the queue.",
-        bounds={"quick": "capacities 1,2,3: 6 API functions each + 14 step pairs each", "thorough": "capacities 1,2,3,8"},
-        outside="'processed exactly once' additionally needs the event FSM to return to idle (C15 progress obligations) - composed on paper",
+                    "get_processed_command agree with the abstract queue. s_step.c: only the idle event FSM pops, exactly the oldest entry, which becomes the event in progress; no other call changes the queue."
+                    " r_evq.c (black box, public API, events only): two triggers with concrete (command, read|test kind) at symbolic steps (first inside a 3-step window, second 0..4 steps later), one io->write refusal at a symbolic step, queue capacity 1, 2 or 3; monitors: cat_is_unsolicited_buffer_full predicts every trigger result, a trigger is refused only when the queue is full, every accepted event's handler runs exactly once in acceptance order "
+                    "and its line is emitted exactly once.",
+        bounds={"quick": "capacities 1,2,3: 6 API functions each + 14 step pairs each + 2 event-only runs each (two events)", "thorough": "capacities 1,2,3,8; 162 event-only runs (all 9 kind pairs, 3 windows, handler codes DATA_OK and OK)"},
+        outside="more than two events in one black-box run (the step induction covers any number); ring indices far from their initial values are reached only by the step induction",
         assumptions=[RI_NOTE],
         level_text="inductive step per operation against an abstract FIFO"),
     "C14": dict(
@@ -165,8 +168,8 @@ META2 = {
         engine=E2 + " + " + E3,
         explanation="safety: s_step.c with two consecutive calls - if the first returns OK, an immediately repeated call with no input returns OK, invokes no callback, writes nothing, changes nothing, and no event "
                     "is queued or in progress. liveness: local progress obligations (no starvation at the flush handshake in either direction, accepted byte advances the cursor, section ends advance, computing "
-                    "states change something) plus the explicit linear step bound of the r_line shapes.",
-        bounds={"quick": "queue capacities 1 (all quick pairs) and 2 (event-related pairs), 5 line shapes", "thorough": "capacities 1,2,3,8"},
+                    "states change something) plus the explicit linear step bound of the r_line shapes and of the event-only runs (r_evq.c: two events and a write refusal end in OK with nothing queued within 50 calls).",
+        bounds={"quick": "queue capacities 1 (all quick pairs) and 2 (event-related pairs), 5 line shapes, 6 event-only runs", "thorough": "capacities 1,2,3,8"},
         outside="a global ranking-function proof of termination is not attempted; hold is not 'stimulus-free'",
         assumptions=[RI_NOTE, FAMILY],
         level_text="inductive safety step + local progress lemmas + bounded runs"),
@@ -192,9 +195,10 @@ META2 = {
     "C18": dict(
         engine=E2 + " + " + E3,
         explanation="s_step.c: if cat_is_busy() = OK before a call then no machine is in or about to enter a flush and the next call (no input, no event) writes nothing and calls nothing; cat_is_hold() = HOLD iff "
-                    "the command FSM is suspended (s_api.c too). r_line.c samples cat_is_busy after every service call of a guided run: OK only with no partial line, nothing owed and no open unit; OK once quiescent.",
-        bounds={"quick": "102 step jobs + 2 API jobs + 5 line shapes", "thorough": "1516 step jobs + free-byte shape"},
-        outside="line-level sampling with events in flight (step level only)",
+                    "the command FSM is suspended (s_api.c too). r_line.c samples cat_is_busy after every service call of a guided run: OK only with no partial line, nothing owed and no open unit; OK once quiescent. r_evq.c does the same along event-only runs (never OK inside an event unit); "
+                    "r_hold.c samples cat_is_hold along a held command with real and spurious releases.",
+        bounds={"quick": "109 step jobs + 2 API jobs + 6 line shapes + 1 hold run + 6 event-only runs", "thorough": "1516 step jobs + free-byte shape"},
+        outside="sampling with a command line AND an event in flight together (step level only)",
         assumptions=[RI_NOTE, FAMILY],
         level_text="inductive step obligations over observables + bounded black-box sampling"),
     "C19": dict(
